@@ -36,7 +36,7 @@ func init() {
 	register(&RuleSet{
 		Property: "C03",
 		Explanation: "VSA/PATH rules: R-C03-1 the accepted value set of every duration that reaches an RA header or option field (computed from the parser's success paths, independently of the documentation) lies within [0, max of the wire field] (router lifetime uint16 s, reachable/retransmit uint32 ms, option lifetimes uint32 s with Infinity = 2^32-1 s, PREF64 scaled lifetime ≤ 8191·8 s); " +
-			"R-C03-2 narrowing conversions on those flows (uint8(hop limit), uint32(MTU), uint8(prefix bits)) have operands inside the target range; R-C03-3 a PREF64 prefix reaching the option is an IPv6, canonical prefix of NAT64 length; R-C03-4 deprecated countdown results are 0 or a positive remainder (from C16's shape); R-C03-5 build/encode errors are returned, never ignored R-C03-3 also: every accepting path of parseIPPrefix establishes Is6 ∧ ¬Is4In6; R-C03-4 the source link-layer address option is appended only under len(Addr) == 6; R-C03-6 the options whose size depends on the configuration (DNSSL names, RDNSS servers plus one for the wildcard, captive-portal URI) are encoded once by the parser with the very values the plugin stores, and the plugin is kept only where that encoding succeeded.",
+			"R-C03-2 narrowing conversions on those flows (uint8(hop limit), uint32(MTU), uint8(prefix bits)) have operands inside the target range; R-C03-3 a PREF64 prefix reaching the option is an IPv6, canonical prefix of NAT64 length; R-C03-4 deprecated countdown results are 0 or a positive remainder (from C16's shape); R-C03-5 build/encode errors are returned, never ignored R-C03-3 also: every accepting path of parseIPPrefix establishes Is6 ∧ ¬Is4In6; R-C03-4 the source link-layer address option is appended only under len(Addr) == 6; R-C03-6 the options whose size depends on the configuration (DNSSL names, RDNSS servers plus one for the wildcard, captive-portal URI) are encoded once by the parser with the very values the plugin stores, and the plugin is kept only where that encoding succeeded; R-C03-3 visits every store to ndp.PREF64.Lifetime in the module: a writer other than NewPREF64 must bound the value to [0, 65528s] by its own expression (constants, min/max).",
 		Assumptions: []string{
 			"Go type checker and go/ssa construction are correct",
 			"ndp v1.1.0 encodes lifetimes by truncating to whole seconds/milliseconds into the unsigned field (read from its source; frozen range table)",
